@@ -109,12 +109,16 @@ def oracle(ctx):
         spread = {rnd.choice(['d0/', 'd1/', 'd0/sub/', 'd2/deep/er/']) + n: fs[n] for n in names}
         order = list(range(len(names)))
         rnd.shuffle(order)
-        return base, extra, spread, order
+        # a malformed file with the *same file name* as one of the units, in a search directory that is read earlier
+        shadow = dict(base)
+        victim = rnd.choice(names)
+        shadow['c0/' + victim] = rnd.choice(['[Broken\n', 'Key=before any section\n', '[' + 'X' + ']\nno equals sign\n'])
+        return base, extra, spread, order, shadow
     vs = [variants(fs) for fs in cases]
 
     def run4(v):
-        base, extra, spread, order = v
-        return run_set(base), run_set(extra), run_set(spread), run_set(base, order)
+        base, extra, spread, order, shadow = v
+        return run_set(base), run_set(extra), run_set(spread), run_set(base, order), run_set(shadow)
     outs = e2e.pmap(run4, vs)
     # per-file verdicts through the hook (which files fail to load or convert)
     ops = []
@@ -122,11 +126,12 @@ def oracle(ctx):
         names = list(fs)
         ops.append(c08.op_of(names, fs, G.sorted_order(rnd, names, ctx.tables)))
     verdicts = ctx.impl(ops)
-    for fs, v, (r0, r1, r2, r3), op, verdict in zip(cases, vs, outs, ops, verdicts):
+    for fs, v, (r0, r1, r2, r3, r4), op, verdict in zip(cases, vs, outs, ops, verdicts):
         res.oracle_evals += 1
         fails = []
         s0 = by_source(r0[1], r0[3])
-        for label, r in (('with unrelated files added', r1), ('redistributed over search directories', r2), ('created in another order', r3)):
+        for label, r in (('with unrelated files added', r1), ('redistributed over search directories', r2), ('created in another order', r3),
+                         ('with a malformed file of the same name in an earlier search directory', r4)):
             s = by_source(r[1], r[3])
             for name in fs:
                 if name.endswith('.pod'):
@@ -143,8 +148,10 @@ def oracle(ctx):
                 fails.append(f'the failure of {b} is not logged with its path: {e2e.error_lines(r0[2])}')
         if r1[0] != 1 and any(n in ('zz-broken.container', 'zz-unknown.volume', 'zz-noimage.container', 'zz-dangling.container', 'zz-nosection.kube') for n in [os.path.basename(p) for p in v[1]]):
             fails.append(f'exit status {r1[0]} although a failing file was added')
+        if r4[0] != 1:
+            fails.append(f'exit status {r4[0]} although a malformed file was added')
         for f in fails:
-            res.oracle_failures.append(dict(op='e2e', input=dict(files=fs, extra=[p for p in v[1] if p not in v[0]], spread=sorted(v[2])), impl_output=dict(exit=r0[0], stderr=e2e.error_lines(r0[2])[:6]), oracle_expectation=f[:1500]))
+            res.oracle_failures.append(dict(op='e2e', input=dict(files=fs, extra=[p for p in v[1] if p not in v[0]], spread=sorted(v[2]), shadow=[p for p in v[4] if p not in v[0]]), impl_output=dict(exit=r0[0], stderr=e2e.error_lines(r0[2])[:6]), oracle_expectation=f[:1500]))
     # known finding KF-C10-1
     for k in ctx.known:
         ex = json.load(open(os.path.join(core.VERIF, 'known_findings.d', k['example'])))
